@@ -120,13 +120,19 @@ def check(run, ctx):
         if inc is None:
             # statement form: child = depth ; if <nesting node>: child = depth + k
             for n in ast.walk(inner):
-                if isinstance(n, ast.If) and "NESTING_NODE_TYPES" in ast.unparse(n.test) and not n.orelse and len(n.body) == 1 and isinstance(n.body[0], ast.Assign):
+                if isinstance(n, ast.If) and "NESTING_NODE_TYPES" in ast.unparse(n.test) and len(n.body) == 1 and isinstance(n.body[0], ast.Assign):
                     a_ = n.body[0]
                     v_ = a_.value
                     if isinstance(v_, ast.BinOp) and isinstance(v_.op, ast.Add) and ast.unparse(v_.left) == dpar and isinstance(v_.right, ast.Constant) and isinstance(a_.targets[0], ast.Name):
                         nm_ = a_.targets[0].id
-                        base_defs = [b_ for b_ in ast.walk(inner) if isinstance(b_, ast.Assign) and b_ is not a_ and any(isinstance(t, ast.Name) and t.id == nm_ for t in b_.targets)]
-                        if len(base_defs) == 1 and ast.unparse(base_defs[0].value) == dpar and base_defs[0].lineno < n.lineno:
+                        if not n.orelse:
+                            # child = depth ; if <nesting node>: child = depth + k
+                            base_defs = [b_ for b_ in ast.walk(inner) if isinstance(b_, ast.Assign) and b_ is not a_ and any(isinstance(t, ast.Name) and t.id == nm_ for t in b_.targets)]
+                            okb = len(base_defs) == 1 and ast.unparse(base_defs[0].value) == dpar and base_defs[0].lineno < n.lineno
+                        else:
+                            # if <nesting node>: child = depth + k  else: child = depth
+                            okb = len(n.orelse) == 1 and isinstance(n.orelse[0], ast.Assign) and ast.unparse(n.orelse[0].targets[0]) == nm_ and ast.unparse(n.orelse[0].value) == dpar
+                        if okb:
                             inc = v_.right.value
                             child_names.add(nm_)
         # the maximum: `if depth > m: m = depth` on a variable of the enclosing function
